@@ -327,7 +327,12 @@ class Frame(object):
         if name == 'items':
             return lambda: PyList([(l, SeriesCol(self.cols[l], l)) for l in self.labels])
         if name == 'to_numpy':
-            return lambda *a, **k: Arr2([self.cols[l].copy() for l in self.labels], self.n)
+            def to_numpy(*a, **k):
+                r = Arr2([self.cols[l].copy() for l in self.labels], self.n)
+                if getattr(self, 'np_dtype', None):
+                    r._dtype = values.DType(self.np_dtype)
+                return r
+            return to_numpy
         if name == 'values':
             return Arr2([self.cols[l] for l in self.labels], self.n)
         if name == 'shape':
